@@ -130,7 +130,8 @@ def stream_carry_instances(f):
                         for v in f.walk():
                             if v['k'] == 'VarDecl' and v['d'] == x['d'] and v['ch'] and any(y.is_call() and (y.get('q') or '').endswith('::GetMaximumPacketSize') for y in v['ch'][0].walk()):
                                 mention = True
-                if mention and ((n['k'] == 'BinaryOperator' and n.get('op') in ('>', '!=') and truth == pol) or (n['k'] == 'BinaryOperator' and n.get('op') == '==' and truth != pol) or (n['k'] != 'BinaryOperator' and truth == pol)):
+                z = A.zero_test(cn, truth)
+                if mention and ((z is not None and not z[1]) or (z is None and n['k'] != 'BinaryOperator' and truth == pol)):
                     packet = True
             out.append((vd, h, defs[0][0], packet))
     return out
@@ -465,16 +466,14 @@ def run(res, tier):
     for u in ups:
         gs = [(f.nodes[c], t) for (c, t) in C.guards_of_block(f, P.pos_of(f, u)[0])]
         for (cn, t) in gs:
-            n = A.strip_casts(cn)
-            if n['k'] == 'BinaryOperator' and n.get('op') == '==' and t:
-                ks = [loc_key(x) for x in n['ch'] if A.strip_casts(x)['k'] == 'MemberExpr']
-                if any(k.endswith('_recvBuffer._offset') for k in ks) and any((x.get('q') or '').endswith('ByteBuffer::GetNumBytes') for y in n['ch'] for x in y.walk() if x.is_call()):
+            for (l, op, r) in A.rel_forms(cn, t):
+                if op == '==' and l['k'] == 'MemberExpr' and loc_key(l).endswith('_recvBuffer._offset') and any((x.get('q') or '').endswith('ByteBuffer::GetNumBytes') for x in r.walk() if x.is_call()):
                     ok_any = True
     # every unflatten in the TCP branch (mtuSize == 0) must be so guarded; the UDP branch reads whole packets
     tcp = []
     for u in ups:
         gs = [(f.nodes[c], t) for (c, t) in C.guards_of_block(f, P.pos_of(f, u)[0])]
-        udp = any(A.strip_casts(cn)['k'] == 'BinaryOperator' and A.strip_casts(cn).get('op') == '>' and t and any(x.get('n') == 'mtuSize' for x in cn.walk()) for (cn, t) in gs)
+        udp = any(A.zero_test(cn, t) is not None and not A.zero_test(cn, t)[1] and any(x.get('n') == 'mtuSize' for x in A.zero_test(cn, t)[0].walk()) for (cn, t) in gs)
         if not udp:
             tcp.append(u)
     okc = bool(tcp)
@@ -482,10 +481,9 @@ def run(res, tier):
         gs = [(f.nodes[c], t) for (c, t) in C.guards_of_block(f, P.pos_of(f, u)[0])]
         g = False
         for (cn, t) in gs:
-            n = A.strip_casts(cn)
-            if n['k'] == 'BinaryOperator' and n.get('op') == '==' and t and any(loc_key(x).endswith('_recvBuffer._offset') for x in n['ch'] if A.strip_casts(x)['k'] == 'MemberExpr') \
-                    and any((x.get('q') or '').endswith('ByteBuffer::GetNumBytes') for y in n['ch'] for x in y.walk() if x.is_call()):
-                g = True
+            for (l, op, r) in A.rel_forms(cn, t):
+                if op == '==' and l['k'] == 'MemberExpr' and loc_key(l).endswith('_recvBuffer._offset') and any((x.get('q') or '').endswith('ByteBuffer::GetNumBytes') for x in r.walk() if x.is_call()):
+                    g = True
         okc = okc and g
     res.ob('COMPLETE', f.where(), 'stream branch: UnflattenHeaderAndMessage only when _recvBuffer._offset == bb->GetNumBytes()', okc, function=f.q, key='COMPLETE|%s|stream' % f.q,
            message='MessageIOGateway can parse and deliver a Message before all of its bytes have arrived (a partial read delivers a truncated Message or mis-frames the stream)')
